@@ -150,8 +150,9 @@ def derived_keys(prog, cfg):
 
 
 # ---------------------------------------------------------------------------------------------- schema-less thrift binary
-def _tval(b, off, t):
-    """parse one value of ttype t at b[off:]; returns (canonical form, new offset); maps/sets canonicalised by sorting."""
+def _tval(b, off, t, tag=None):
+    """parse one value of ttype t at b[off:]; returns (canonical form, new offset); map entries canonicalised by sorting;
+    tag (the run directory) is blanked inside strings."""
     if t == 2 or t == 3:
         return ("b", b[off]), off + 1
     if t == 4 or t == 10:
@@ -164,7 +165,8 @@ def _tval(b, off, t):
         n = struct.unpack(">i", b[off:off + 4])[0]
         if n < 0 or off + 4 + n > len(b):
             raise ValueError("string length")
-        return ("s", b[off + 4:off + 4 + n]), off + 4 + n
+        sv = bytes(b[off + 4:off + 4 + n])
+        return ("s", sv.replace(tag, b"@RUN@") if tag else sv), off + 4 + n
     if t == 12:
         fields = []
         while True:
@@ -174,7 +176,7 @@ def _tval(b, off, t):
                 break
             fid = struct.unpack(">h", b[off:off + 2])[0]
             off += 2
-            v, off = _tval(b, off, ft)
+            v, off = _tval(b, off, ft, tag)
             fields.append((fid, ft, v))
         return ("S", tuple(fields)), off
     if t == 13:
@@ -183,8 +185,8 @@ def _tval(b, off, t):
         off += 6
         ents = []
         for _ in range(n):
-            k, off = _tval(b, off, kt)
-            v, off = _tval(b, off, vt)
+            k, off = _tval(b, off, kt, tag)
+            v, off = _tval(b, off, vt, tag)
             ents.append((k, v))
         ents.sort(key=repr)
         return ("M", kt, vt, tuple(ents)), off
@@ -194,16 +196,16 @@ def _tval(b, off, t):
         off += 5
         xs = []
         for _ in range(n):
-            v, off = _tval(b, off, et)
+            v, off = _tval(b, off, et, tag)
             xs.append(v)
         return ("L", t, et, tuple(xs)), off
     raise ValueError("ttype %d" % t)
 
 
-def thrift_canon(b):
+def thrift_canon(b, tag=None):
     """canonical form of a thrift-binary struct with map entries sorted, or None if it does not parse."""
     try:
-        v, off = _tval(b, 0, 12)
+        v, off = _tval(b, 0, 12, tag)
         return (v, bytes(b[off:]))
     except Exception:
         return None
@@ -245,8 +247,9 @@ def classify_file_diff(rel, a, b):
     return "file-content"
 
 
-def classify_stdin_diff(a, b):
-    ca, cb = thrift_canon(a), thrift_canon(b)
+def classify_stdin_diff(a, taga, b, tagb):
+    """a, b: raw request bytes; taga, tagb: the run directories they mention"""
+    ca, cb = thrift_canon(a, taga), thrift_canon(b, tagb)
     if ca is not None and ca == cb:
         return "request-map-entry-order"
     return "request-bytes"
@@ -323,22 +326,27 @@ class Runner:
         res = {"executions": 0, "diffs": [], "error": None, "files": 0, "cmd": None}
         for i in range(self.n):
             rundir = os.path.join(cdir, "r%03d" % i)
-            s, cmd = self.execute(case, idl_main, rundir, GOMAXPROCS[(i + self.offset) % 3])
-            s["how"] = "fresh directory, GOMAXPROCS=%s" % GOMAXPROCS[(i + self.offset) % 3]
+            gmp = GOMAXPROCS[(i + self.offset) % 3]
+            s, cmd = self.execute(case, idl_main, rundir, gmp)
+            s["how"] = "fresh directory, GOMAXPROCS=%s" % gmp
             snaps.append(s)
             dirs.append(rundir)
             res["cmd"] = cmd
-        # once more into the directory of the first execution (its previous result is there)
-        s, _ = self.execute(case, idl_main, dirs[0], GOMAXPROCS[self.offset % 3])
+        # into a directory that holds the result of a previous execution
+        pdir = os.path.join(cdir, "r%03d" % self.n)
+        os.makedirs(pdir)
+        if os.path.isdir(os.path.join(dirs[0], "out")):
+            shutil.copytree(os.path.join(dirs[0], "out"), os.path.join(pdir, "out"))
+        s, _ = self.execute(case, idl_main, pdir, GOMAXPROCS[self.offset % 3])
         s["how"] = "directory holding the result of a previous execution"
         snaps.append(s)
-        dirs.append(dirs[0])
+        dirs.append(pdir)
         # into a directory pre-populated with longer garbage under the same names
-        gdir = os.path.join(cdir, "r%03d" % self.n)
+        gdir = os.path.join(cdir, "r%03d" % (self.n + 1))
         for rel in snaps[0]["tree"]:
             dst = os.path.join(gdir, "out", rel)
             os.makedirs(os.path.dirname(dst), exist_ok=True)
-            with open(os.path.join(dirs[1], "out", rel), "rb") as fh:
+            with open(os.path.join(dirs[0], "out", rel), "rb") as fh:
                 data = fh.read()
             with open(dst, "wb") as fh:
                 fh.write(self.garbage + data + self.garbage)
@@ -374,37 +382,27 @@ class Runner:
                     a = fh.read().replace(dirs[0].encode(), b"@RUN@")
                 with open(os.path.join(dirs[k], "out", rel), "rb") as fh:
                     b = fh.read().replace(dirs[k].encode(), b"@RUN@")
-                if dirs[k] == dirs[0]:
-                    a = None    # the first result was overwritten; take another fresh execution's file
-                    for j in range(1, self.n):
-                        if snaps[j]["tree"].get(rel) == ref["tree"][rel]:
-                            with open(os.path.join(dirs[j], "out", rel), "rb") as fh:
-                                a = fh.read().replace(dirs[j].encode(), b"@RUN@")
-                            break
-                kind = classify_file_diff(rel, a, b) if a is not None else "file-content"
-                res["diffs"].append({"object": obj_of(rel), "kind": kind, "path": rel, "how": s["how"],
-                                     "detail": first_diff(a, b) if a is not None else ""})
+                res["diffs"].append({"object": obj_of(rel), "kind": classify_file_diff(rel, a, b), "path": rel,
+                                     "how": s["how"], "detail": first_diff(a, b)})
             if ref["stdin"] != s["stdin"] and "stdin" not in seen:
                 seen.add("stdin")
-                a = self._req(dirs, snaps, ref["stdin"])
+                if s["stdin"] is None:
+                    res["diffs"].append({"object": "stdin", "kind": "request-missing", "path": "<plugin stdin>",
+                                         "how": s["how"], "detail": ""})
+                    continue
+                with open(os.path.join(dirs[0], "req.bin"), "rb") as fh:
+                    a = fh.read()
                 with open(os.path.join(dirs[k], "req.bin"), "rb") as fh:
-                    b = fh.read().replace(dirs[k].encode(), b"@RUN@")
-                res["diffs"].append({"object": "stdin", "kind": classify_stdin_diff(a, b) if a else "request-bytes",
-                                     "path": "<plugin stdin>", "how": s["how"], "detail": first_diff(a, b) if a else ""})
+                    b = fh.read()
+                res["diffs"].append({"object": "stdin",
+                                     "kind": classify_stdin_diff(a, dirs[0].encode(), b, dirs[k].encode()),
+                                     "path": "<plugin stdin>", "how": s["how"],
+                                     "detail": first_diff(a.replace(dirs[0].encode(), b"@RUN@"),
+                                                          b.replace(dirs[k].encode(), b"@RUN@"))})
         res["distinct_trees"] = len({json.dumps(s["tree"], sort_keys=True) for s in snaps})
         res["distinct_stdin"] = len({s["stdin"] for s in snaps})
         shutil.rmtree(cdir, ignore_errors=True)
         return res
-
-    def _req(self, dirs, snaps, want):
-        for j in range(len(snaps) - 1, -1, -1):
-            p = os.path.join(dirs[j], "req.bin")
-            if os.path.exists(p):
-                with open(p, "rb") as fh:
-                    data = fh.read().replace(dirs[j].encode(), b"@RUN@")
-                if hashlib.sha256(data).hexdigest() == want:
-                    return data
-        return None
 
 
 def obj_of(rel):
